@@ -5,7 +5,7 @@ CONSTANTS
   PNorm <- AlphaWild
   PLit <- LitCore
   PMacro <- NoChars
-  PLen = 4
+  PLen = 3
   SAlpha <- StrSmall
   SLen = 3
   Kind = "shell"
